@@ -481,7 +481,7 @@ private def exDoc : Doc :=
                           .spread "F" []]] }],
     frags := [{ name := "F", on := "Pet", sels := [.field "__typename" "__typename" 0 [] [] false []] }] }
 
-example : diffSchema exOld exNew 2 = [] ∧ (diffSchema exOld exNew 0).length = 2 := by decide
+example : diffSchema exOld exNew 2 = [] ∧ (diffSchema exOld exNew 0).length = 3 := by decide
 example : ValidDoc exOld exDoc [] := by unfold ValidDoc; decide
 example : DumpWf exOld ∧ DumpWf exNew := by
   refine ⟨⟨?_, ?_, ?_⟩, ⟨?_, ?_, ?_⟩⟩ <;> simp [Uniq, exOld, exNew, builtinScalars]
